@@ -1026,6 +1026,84 @@ def _member(v, enum="_ControlType"):
     return None
 
 
+def registration_rules(repo, chk, rule, members):
+    """which checker of the simulator receives which control type, from which sources, and that nothing but the type decides it (shared with C10: a new
+    simulator object re-derives the control bookkeeping from the model alone)"""
+    # ---- (d) which checker of the simulator receives which type, from which sources
+    sclasses = repo.classes(CORE)
+    if "WNTRSimulator" not in sclasses:
+        raise AnchorError("class WNTRSimulator vanished")
+    smeths = resolved_methods(sclasses, "WNTRSimulator")
+    gm = smeths.get("_get_control_managers")
+    if gm is None:
+        raise AnchorError("WNTRSimulator._get_control_managers vanished")
+    chk.fn(gm)
+    core_funcs = {n.name: n for n in repo.tree(CORE).body if isinstance(n, ast.FunctionDef)}
+    registers = lambda d: any(isinstance(x, ast.Attribute) and x.attr == "register_control" for x in ast.walk(d))
+
+    def type_leaf(node, st, ex):
+        if isinstance(node, ast.Compare) and len(node.ops) == 1:
+            op = node.ops[0]
+            l, r = ex.ev(node.left, st), ex.ev(node.comparators[0], st)
+            if isinstance(op, (ast.Eq, ast.Is, ast.NotEq, ast.IsNot)):
+                a, b = _member(l), _member(r)
+                if a is None or b is None:
+                    return None
+                return (a == b) == isinstance(op, (ast.Eq, ast.Is))
+            if isinstance(op, (ast.In, ast.NotIn)) and _member(l) is not None:
+                if isinstance(r, dict):
+                    ms = [k.split(".")[1] if isinstance(k, str) and k.startswith("_ControlType.") and k.count(".") == 1 else None for k in r]
+                elif isinstance(r, (list, tuple)):
+                    ms = [_member(x) for x in r]
+                else:
+                    return None
+                if None in ms:
+                    return None
+                return (_member(l) in ms) == isinstance(op, ast.In)
+        return None
+
+    regs = {}        # member -> {receiver text: set(source iterables)}
+    for m in members:
+        hook = lambda base, attr, st, m=m: Opaque("_ControlType." + m) if attr in ("epanet_control_type", "_control_type") and isinstance(base, Opaque) else NotImplemented
+        dx = DecidedExec(gm, class_ancestors(sclasses, "WNTRSimulator"), smeths, core_funcs, registers, type_leaf, attr_hook=hook)
+        per_path = []
+        for o in dx.paths():
+            here = {}
+            for e in o.events:
+                mm = re.match(r"^(.*)\.register_control\((.*)\)$", e[1]) if e[0] == "call" else None
+                if not mm:
+                    continue
+                args = list(e[2][1]) + list(e[2][2].values())
+                if len(args) != 1 or not isinstance(args[0], Opaque) or not e[4]:
+                    raise ExtractError("_get_control_managers: registration `%s` at line %s is not of a control drawn from a source loop" % (e[1], e[3]))
+                here.setdefault(mm.group(1), set()).add(e[4][-1])
+            per_path.append(here)
+        if not per_path:
+            raise ExtractError("_get_control_managers: no path analysed for control type %s" % m)
+        if any(p_ != per_path[0] for p_ in per_path[1:]):
+            # the type of the control is fixed on these paths, every test on it is decided: what still splits the paths is a test on something else
+            full = max(per_path, key=lambda p_: sum(len(v_) for v_ in p_.values()))
+            short = min(per_path, key=lambda p_: sum(len(v_) for v_ in p_.values()))
+            lost = sorted("%s <- %s" % (k_, s_) for k_, v_ in full.items() for s_ in v_ if s_ not in short.get(k_, ()))
+            chk.bad(rule, "every %s control drawn from the model and the internal families is registered whatever else holds" % m, loc(gm),
+                    "a control is registered according to its type only; here the registration also depends on a test that is not about the type (e.g. on the clock at the moment "
+                    "the simulator is created: a continued run would then drop controls an uninterrupted run keeps)", expected="the same registrations on every path", found="on some path missing: %s" % lost[:4])
+            regs[m] = full
+            continue
+        regs[m] = per_path[0]
+    want = {"self._presolve_controls": {"presolve", "pre_and_postsolve"}, "self._postsolve_controls": {"postsolve", "pre_and_postsolve"},
+            "self._rules": {"rule"}, "self._feasibility_controls": {"feasibility"}}
+    for k, v in want.items():
+        got = set(m for m in members if k in regs[m])
+        chk.expect(got == v, rule, "%s receives exactly the control types %s" % (k, sorted(v)), loc(gm), found=sorted(got))
+    need = ["self._wn.controls()", "self._get_all_tank_controls()", "self._get_cv_controls()", "self._get_pump_controls()", "self._get_valve_controls()"]
+    missing = sorted(set("%s controls from %s -> %s" % (m, n_, k) for m in members for k, srcs in regs[m].items() for n_ in need if not any(n_ in s_ for s_ in srcs)))
+    allsrcs = sorted(set(s_ for m in members for srcs in regs[m].values() for s_ in srcs))
+    chk.expect(not missing and bool(allsrcs), rule, "user controls and all internal control families are categorised", loc(gm), found=missing[:4] or allsrcs)
+    chk.sample({"rule": rule, "registrations": dict((m, dict((k, sorted(v)) for k, v in regs[m].items())) for m in members)})
+
+
+
 def classification_rules(repo, chk, rule):
     classes = repo.classes(CTRL)
     tree = repo.tree(CTRL)
@@ -1135,70 +1213,7 @@ def classification_rules(repo, chk, rule):
     rets = [o.ret for o in SymExec().run(gp[0]) if o.raised is None]
     chk.expect(bool(rets) and all(r == Opaque("self._control_type") for r in rets), rule, "epanet_control_type reports the stored _control_type", loc(gp[0]), found=rets)
 
-    # ---- (d) which checker of the simulator receives which type, from which sources
-    sclasses = repo.classes(CORE)
-    if "WNTRSimulator" not in sclasses:
-        raise AnchorError("class WNTRSimulator vanished")
-    smeths = resolved_methods(sclasses, "WNTRSimulator")
-    gm = smeths.get("_get_control_managers")
-    if gm is None:
-        raise AnchorError("WNTRSimulator._get_control_managers vanished")
-    chk.fn(gm)
-    core_funcs = {n.name: n for n in repo.tree(CORE).body if isinstance(n, ast.FunctionDef)}
-    registers = lambda d: any(isinstance(x, ast.Attribute) and x.attr == "register_control" for x in ast.walk(d))
-
-    def type_leaf(node, st, ex):
-        if isinstance(node, ast.Compare) and len(node.ops) == 1:
-            op = node.ops[0]
-            l, r = ex.ev(node.left, st), ex.ev(node.comparators[0], st)
-            if isinstance(op, (ast.Eq, ast.Is, ast.NotEq, ast.IsNot)):
-                a, b = _member(l), _member(r)
-                if a is None or b is None:
-                    return None
-                return (a == b) == isinstance(op, (ast.Eq, ast.Is))
-            if isinstance(op, (ast.In, ast.NotIn)) and _member(l) is not None:
-                if isinstance(r, dict):
-                    ms = [k.split(".")[1] if isinstance(k, str) and k.startswith("_ControlType.") and k.count(".") == 1 else None for k in r]
-                elif isinstance(r, (list, tuple)):
-                    ms = [_member(x) for x in r]
-                else:
-                    return None
-                if None in ms:
-                    return None
-                return (_member(l) in ms) == isinstance(op, ast.In)
-        return None
-
-    regs = {}        # member -> {receiver text: set(source iterables)}
-    for m in members:
-        hook = lambda base, attr, st, m=m: Opaque("_ControlType." + m) if attr in ("epanet_control_type", "_control_type") and isinstance(base, Opaque) else NotImplemented
-        dx = DecidedExec(gm, class_ancestors(sclasses, "WNTRSimulator"), smeths, core_funcs, registers, type_leaf, attr_hook=hook)
-        per_path = []
-        for o in dx.paths():
-            here = {}
-            for e in o.events:
-                mm = re.match(r"^(.*)\.register_control\((.*)\)$", e[1]) if e[0] == "call" else None
-                if not mm:
-                    continue
-                args = list(e[2][1]) + list(e[2][2].values())
-                if len(args) != 1 or not isinstance(args[0], Opaque) or not e[4]:
-                    raise ExtractError("_get_control_managers: registration `%s` at line %s is not of a control drawn from a source loop" % (e[1], e[3]))
-                here.setdefault(mm.group(1), set()).add(e[4][-1])
-            per_path.append(here)
-        if not per_path:
-            raise ExtractError("_get_control_managers: no path analysed for control type %s" % m)
-        if any(p_ != per_path[0] for p_ in per_path[1:]):
-            raise ExtractError("_get_control_managers: the registration of %s controls depends on a test that could not be decided" % m)
-        regs[m] = per_path[0]
-    want = {"self._presolve_controls": {"presolve", "pre_and_postsolve"}, "self._postsolve_controls": {"postsolve", "pre_and_postsolve"},
-            "self._rules": {"rule"}, "self._feasibility_controls": {"feasibility"}}
-    for k, v in want.items():
-        got = set(m for m in members if k in regs[m])
-        chk.expect(got == v, rule, "%s receives exactly the control types %s" % (k, sorted(v)), loc(gm), found=sorted(got))
-    need = ["self._wn.controls()", "self._get_all_tank_controls()", "self._get_cv_controls()", "self._get_pump_controls()", "self._get_valve_controls()"]
-    missing = sorted(set("%s controls from %s -> %s" % (m, n_, k) for m in members for k, srcs in regs[m].items() for n_ in need if not any(n_ in s_ for s_ in srcs)))
-    allsrcs = sorted(set(s_ for m in members for srcs in regs[m].values() for s_ in srcs))
-    chk.expect(not missing and bool(allsrcs), rule, "user controls and all internal control families are categorised", loc(gm), found=missing[:4] or allsrcs)
-    chk.sample({"rule": rule, "registrations": dict((m, dict((k, sorted(v)) for k, v in regs[m].items())) for m in members)})
+    registration_rules(repo, chk, rule, members)
 
 
 WITNESSES = [
